@@ -158,7 +158,7 @@ def mono_expired(B):
     B.no_other_exception()
 
 
-@contract(TIMER + ".start", props=["C08", "C07"], name=MONO + ".start(inherited Timer.start)")
+@contract(MONO + ".start", props=["C08", "C07"], name=MONO + ".start")
 def mono_start(B):
     reads = any_clock(B)
     self = B.obj(MONO)
@@ -169,6 +169,9 @@ def mono_start(B):
     B.ensures("self._start == (start if start is not None else now)", top=True)
     B.ensures("self._stop == self._start + (duration if duration is not None else old(self._stop) - old(self._start))", top=True)
     B.ensures("result == self._start")
+    # the retrograde reference follows a start at the current time, and only that (C07: a clock step before the start
+    # must not be applied to the new period)
+    B.ensures("self._last == (old(self._last) if start is not None else now)", top=True)
     B.no_other_exception()
 
 
@@ -181,6 +184,7 @@ def mono_restart(B):
     B.ensures("self._start == old(self._stop)", top=True)
     B.ensures("self._stop == old(self._stop) + (duration if duration is not None else old(self._stop) - old(self._start))", top=True)
     B.ensures("len(reads) == 0", reads=tuple(reads))      # lossless: the clock is not consulted
+    B.ensures("self._last == old(self._last)")
     B.no_other_exception()
 
 
